@@ -50,7 +50,7 @@ class ManualExecutor(Executor):
             p["on_future"](fut)     # e.g. a user's done-callback registered before the layer above registers its own
         if not p.get("cancellable", True):
             fut.set_running_or_notify_cancel()
-        if retain:
+        if retain and not p.get("cancel_dur"):
             H.tap_cancel(fut, sub, self.tag, k)
         dur = p.get("dur") or 0
         durs = dur if isinstance(dur, (list, tuple)) else [dur]
@@ -83,7 +83,14 @@ class ManualExecutor(Executor):
                 f = fn_ = args_ = kwargs_ = v = None
                 E.emit("DelegateDone", f=sub, a=0)
 
-        if not d:
+        if p.get("cancel_dur"):
+            # a delegate whose cancel() is slow and refuses in the end (a remote cancel that is turned down)
+            def slow_refusing_cancel():
+                E.vsleep(p["cancel_dur"])
+                return False
+
+            fut.cancel = slow_refusing_cancel
+        elif not d:
             # no worker will ever look at this item: acknowledge a cancellation at once (as a draining queue would)
             inner_cancel = fut.cancel
 
